@@ -92,6 +92,19 @@ def simplify(atoms, box=None):
                 g["ne"] = set(d for d in g["ne"] if d >= qlo)
             if hi is None and qhi is not None:
                 g["ne"] = set(d for d in g["ne"] if d <= qhi)
+        if box is not None and g["ne"]:
+            # integer symbol ranges: `x != a` over a two-value range {a, b} is `x == b`
+            from .prover import poly_interval
+            qlo2, qhi2 = poly_interval(q, {s_: box.get(s_, (None, None)) for s_ in q.syms()})
+            elo = qlo2 if lo is None else (lo if qlo2 is None else max(lo, qlo2))
+            ehi = qhi2 if hi is None else (hi if qhi2 is None else min(hi, qhi2))
+            if elo is not None and ehi is not None and 0 <= ehi - elo <= 3 and elo == int(elo) and ehi == int(ehi):
+                left = [v for v in range(int(elo), int(ehi) + 1) if v not in g["ne"]]
+                if not left:
+                    false = True
+                elif len(left) == 1:
+                    lo = hi = Fraction(left[0])
+                    g["ne"] = set()
         if lo is not None and hi is not None and lo > hi:
             false = True
         if lo is not None and hi is not None and lo == hi:
@@ -105,6 +118,13 @@ def simplify(atoms, box=None):
             if (lo is not None and d < lo) or (hi is not None and d > hi):
                 continue
             out.append(rel_atom(q - Poly.const(d), "!="))
+    tags = {}
+    for a in rest:
+        if a[0] in ("some", "none", "ok", "err"):
+            tags.setdefault(a[1], set()).add(a[0])
+    for nm_, tg in tags.items():
+        if {"some", "none"} <= tg or {"ok", "err"} <= tg:
+            false = True
     if false:
         return None
     seen = set()
@@ -115,6 +135,149 @@ def simplify(atoms, box=None):
             seen.add(k)
             res.append(a)
     return res
+
+
+def _case_symbols(sy, atoms, extra_strs=()):
+    """symbols to case-split on: a branch-defined value phi(p|q), an `unwrap_or` default, or a small remainder
+    rem(P,k) that occurs inside another expression (not merely as the atom `rem == c`)"""
+    import re as _re
+    strs = [atom_str(a) for a in atoms] + list(extra_strs)
+    cands = []
+    uw = [n for n in list(sy.sym_terms) if n.startswith("Option::<T>::unwrap_or(") and unwrap_or_cases(sy, n)]
+    names = list(sy.phi_defs) + [n for n, (kind, P, k) in sy.divrem.items() if kind == "rem" and k <= 4] + uw
+    for n in names:
+        occ = [x for x in strs if n in x]
+        if not occ:
+            continue
+        bare = _re.compile(r"^%s( - \d+)? (==|!=) 0$" % _re.escape(n))
+        if n in sy.phi_defs or n in uw or any(not bare.match(x) for x in occ):
+            cands.append(n)
+    # a candidate nested in another candidate's name is expanded through the outer one first
+    cands = [n for n in cands if not any(n != m and n in m for m in cands)]
+    return sorted(cands)[:3]
+
+
+def unwrap_or_cases(sy, n):
+    """`X.unwrap_or(D)` as a two-case value: (X is Some -> payload), (X is None -> D)"""
+    t = sy.sym_terms.get(n)
+    if t is None:
+        return None
+    from .terms import unmut, short as _short
+    t = unmut(t)
+    if not (t[0] == "call" and _short(t[1]) == "Option::<T>::unwrap_or" and len(t[2]) == 2):
+        return None
+    X, D = t[2]
+    pd = sy.poly(D)
+    if pd is None:
+        return None
+    # X = Y.map(f): Some exactly when Y is Some, payload f(payload of Y)
+    from .guards import closure_info, closure_ret, subst_upvars
+    wrap = []
+    Xs = unmut(X)
+    while Xs[0] == "call" and _short(Xs[1]) == "Option::<T>::map" and len(Xs[2]) == 2:
+        ci = closure_info(sy.prog, sy.an, unmut(Xs[2][1]))
+        if not ci:
+            break
+        rets = closure_ret(sy.prog, ci[0])
+        if len(rets) != 1:
+            break
+        wrap.append(subst_upvars(rets[0], ci[1]))
+        Xs = unmut(Xs[2][0])
+    pt = ("field", ("downcast", Xs, "Some"), 0)
+    for body_ in reversed(wrap):
+        pt = _subst_carg(body_, pt)
+    X = Xs
+    pp_ = sy.poly(pt)
+    payload = pp_ if pp_ is not None else Poly.sym(sy.name(pt))
+    xn = sy.name(X)
+    from .terms import strip as _strip
+    key = _strip(t)       # keyed by the call term: canonical names change while nested cases are substituted
+    return [(key, payload, [("some", xn)]), (key, pd, [("none", xn)])]
+
+
+def _subst_carg(t, arg):
+    if not isinstance(t, tuple) or not t or not isinstance(t[0], str):
+        return t
+    if t == ("carg", 0):
+        return arg
+    out = [t[0]]
+    for x in t[1:]:
+        if isinstance(x, tuple) and x and isinstance(x[0], str):
+            out.append(_subst_carg(x, arg))
+        elif isinstance(x, tuple):
+            out.append(tuple(_subst_carg(y, arg) if isinstance(y, tuple) else y for y in x))
+        else:
+            out.append(x)
+    return tuple(out)
+
+
+def case_envs(sy, path, value_of=None, env=None, depth=0):
+    """[(env, extra_atoms)]: the cases of the branch-defined values / small remainders / unwrap_or defaults that occur
+    on this path or in the value `value_of()` computed on it (one empty case if there are none).  Nested cases
+    (`a.unwrap_or(b.unwrap_or(c))`) are expanded outermost first, recursively."""
+    env = dict(env or {})
+    if env:
+        sy.set_cases(env)
+    try:
+        atoms0 = path_atoms(sy, path)
+        syms = _case_symbols(sy, atoms0, value_of() if value_of else ())
+    finally:
+        if env:
+            sy.set_cases(None)
+    def _done(n):
+        if n in env:
+            return True
+        uc_ = unwrap_or_cases(sy, n) if n not in sy.phi_defs and n not in sy.divrem else None
+        return bool(uc_) and uc_[0][0] in env
+    syms = [n for n in syms if not _done(n)]
+    if not syms or depth >= 6:
+        return [(env, [])]
+    choices = []
+    for n in syms:
+        if n in sy.phi_defs:
+            defs = sy.phi_defs[n]
+            guard_sets = []
+            for bi, _ in defs:
+                g = []
+                for (d, rel, vals) in sy.an.atoms_at(bi):
+                    g += sy.atoms(d, rel, vals, is_bool=True)
+                guard_sets.append(g)
+            keys = [set(atom_key(a) for a in g) for g in guard_sets]
+            common = set.intersection(*keys) if keys else set()
+            choices.append([(n, q, [a for a in g if atom_key(a) not in common]) for (bi, q), g in zip(defs, guard_sets)])
+        elif n in sy.divrem:
+            kind, P, k = sy.divrem[n]
+            choices.append([(n, c, [rel_atom(Poly.sym(n) - Poly.const(c), "==")]) for c in range(k)])
+        else:
+            uc = unwrap_or_cases(sy, n)
+            if uc:
+                choices.append(uc)
+    out = []
+    for combo in itertools.product(*choices):
+        env2 = dict(env)
+        extra = []
+        for n, v, e in combo:
+            env2[n] = v
+            extra += e
+        for env3, extra3 in case_envs(sy, path, value_of, env2, depth + 1):
+            out.append((env3, extra + extra3))
+    return out
+
+
+def case_paths(sy, path):
+    """atom lists of one CFG path, split into the cases of its branch-defined values / small remainders so that
+    `if n % 2 == 0 {4 + 2n} else {6 + 2n}` and `4 + 2n + 2 * (n % 2)` give the same cases"""
+    out = []
+    for env, extra in case_envs(sy, path):
+        if env:
+            sy.set_cases(env)
+        try:
+            ats = path_atoms(sy, path)
+        finally:
+            if env:
+                sy.set_cases(None)
+        out.append(ats + extra)
+    return out
 
 
 def merge_value_sets(paths):
@@ -189,11 +352,12 @@ def accept_tables(prog, fn_path, sites="ok", alias=None, limit=20000):
             raise RuntimeError("too many accept paths in %s" % fn_path)
         sets = []
         for path in ps:
-            ats = simplify(path_atoms(sy, path), sy.sym_box)
-            if ats is None:
-                continue   # infeasible path
-            strs = frozenset(apply_alias(atom_str(a), alias) for a in ats)
-            sets.append(strs)
+            for case in case_paths(sy, path):
+                ats = simplify(case, sy.sym_box)
+                if ats is None:
+                    continue   # infeasible path
+                strs = frozenset(apply_alias(atom_str(a), alias) for a in ats)
+                sets.append(strs)
         merged = merge_value_sets(sets)
         out.append(Table(fn_path, bb, merged, len(ps)))
     return out, an, sy
@@ -203,10 +367,11 @@ def loop_tables(prog, an, sy, header, alias=None):
     ps = loop_iteration_paths(an, header)
     sets = []
     for path in ps or []:
-        ats = simplify(path_atoms(sy, path), sy.sym_box)
-        if ats is None:
-            continue
-        sets.append(frozenset(apply_alias(atom_str(a), alias) for a in ats))
+        for case in case_paths(sy, path):
+            ats = simplify(case, sy.sym_box)
+            if ats is None:
+                continue
+            sets.append(frozenset(apply_alias(atom_str(a), alias) for a in ats))
     return merge_value_sets(sets)
 
 
@@ -283,18 +448,35 @@ def ret_table(prog, fn, alias=None, slice_param=None, only_ok=False):
         if ps is None:
             raise RuntimeError("too many paths in %s" % fn)
         for path in ps:
-            ats = simplify(path_atoms(sy, path), sy.sym_box)
-            if ats is None:
-                continue
-            sy.set_path(path[1])
-            defs = sy.var_defs(0) or []
-            vals = []
-            for d in defs:
-                p = sy.poly(d)
-                vals.append(str(p) if p is not None else sy.name(d))
-            sy.set_path(None)
-            val = apply_alias("|".join(sorted(vals)), alias)
-            if only_ok and not val.startswith("Ok{"):
-                continue
-            out.append((sorted(apply_alias(atom_str(a), alias) for a in ats), val))
+            def _vals(path=path):
+                sy.set_path(path[1])
+                try:
+                    out_ = []
+                    for d in sy.var_defs(0) or []:
+                        p_ = sy.poly(d)
+                        out_.append(str(p_) if p_ is not None else sy.name(d))
+                    return out_
+                finally:
+                    sy.set_path(None)
+            for env, extra in case_envs(sy, path, _vals):
+                if env:
+                    sy.set_cases(env)
+                try:
+                    ats = simplify(path_atoms(sy, path) + extra, sy.sym_box)
+                    if ats is None:
+                        continue
+                    sy.set_path(path[1])
+                    defs = sy.var_defs(0) or []
+                    vals = []
+                    for d in defs:
+                        p = sy.poly(d)
+                        vals.append(str(p) if p is not None else sy.name(d))
+                    sy.set_path(None)
+                finally:
+                    if env:
+                        sy.set_cases(None)
+                val = apply_alias("|".join(sorted(vals)), alias)
+                if only_ok and not val.startswith("Ok{"):
+                    continue
+                out.append((sorted(apply_alias(atom_str(a), alias) for a in ats), val))
     return sorted(out)
